@@ -68,13 +68,15 @@ class FuncResult:
         self.escaped = {}          # exception class -> count (raises clause evidence)
         self.truncated = False
         self.covers = {}           # implication-shaped clause -> antecedent satisfiable on some path
+        self.xchecks = []          # path models with the engine's predicted outcome, for the CPython cross-check of the encoder
+        self.xskipped = 0
 
     def to_json(self):
         return {"target": self.target, "prop": self.prop, "paths": self.paths, "pruned": self.pruned,
                 "exits": self.exits, "unsupported": self.unsupported[:5], "imprecise": sorted(set(self.imprecise))[:5],
                 "error": self.error, "solver_calls": self.solver_calls, "solver_time_s": round(self.solver_time, 3),
                 "wall_s": round(self.wall, 3), "source_hash": self.source_hash, "truncated": self.truncated,
-                "covers": self.covers,
+                "covers": self.covers, "xchecks": self.xchecks, "xskipped": self.xskipped,
                 "obligations": [o.to_json() for o in self.obs.values()]}
 
 
@@ -513,6 +515,8 @@ class Verifier:
         ctx = I.ctx
         if not run.quick_feasible():
             raise E.PathEnd()
+        if os.environ.get("PYVC_XCHECK"):
+            self.export_xcheck(I, c, fr, run, result, exc)
         extra = {}
         root = getattr(I, "root_frame", None)
         if root is not None:
@@ -565,6 +569,90 @@ class Verifier:
         if c.modifies is not None:
             self.check_frame(I, c, fr, run, sframe)
         I.exit_checks(c, fr, sframe, extra, exc)
+
+    def export_xcheck(self, I, c, fr, run, result, exc):
+        """self-validation of the encoder: a model of this path's condition + the outcome the engine predicts for it (return value /
+        exception class / scalar fields of the tracked objects).  native/replay.py builds that pre-state, runs the real function under
+        CPython and compares.  Only paths that ARE executions are exported: no cut loop, no callee used through its contract, no abstraction."""
+        limit = int(os.environ.get("PYVC_XCHECK_MAX", "40"))
+        if len(fr.xchecks) >= limit:
+            return
+        opaque = [c_ for c_ in run.calls if c_.get("outcome") == "return" and not isinstance(c_.get("value"), (VInt, VReal, VBool, VStr, VNone, VEnum))]
+        if getattr(run, "cut", False) or run.abstractions or run.imprecise or run.contract_calls or c.options.get("closure") or c.pre_state \
+                or getattr(run, "externals", 0) or opaque:
+            fr.xskipped += 1
+            if os.environ.get("PYVC_DEBUG"):
+                print("XSKIP", "cut" if getattr(run, "cut", False) else "", run.abstractions[:1], run.imprecise[:1], len(run.contract_calls))
+            return
+        # prefer a model with empty input containers (the native state builder cannot populate symbolic containers)
+        empties = [c_ == 0 for n_, c_ in run.inputs.items() if n_.endswith("#len") or n_.endswith("#size")]
+        if not (empties and run.solver.check(*empties) == z3.sat) and run.check() != z3.sat:
+            fr.xskipped += 1
+            return
+        # diversify: pin scalar inputs to small non-zero values where the path allows (z3's default models are mostly zeros)
+        import random as _random
+        rnd = _random.Random(hash((c.target, len(fr.xchecks))) & 0xFFFF)
+        assumps = list(empties) if empties and run.solver.check(*empties) == z3.sat else []
+        pinned = 0
+        for n_, c_ in list(run.inputs.items()):
+            if pinned >= 10 or "#" in n_ or "!" in n_ or n_.startswith("now"):
+                continue
+            if z3.is_int(c_) or z3.is_real(c_):
+                vals = [1, 2, 3, 5, 7, 10, -1, 50]
+                rnd.shuffle(vals)
+                for v_ in vals[:3]:
+                    if run.solver.check(*assumps, c_ == v_) == z3.sat:
+                        assumps.append(c_ == v_)
+                        pinned += 1
+                        break
+        if run.solver.check(*assumps) != z3.sat:
+            fr.xskipped += 1
+            return
+        m = run.solver.model()
+        mj = model_json(run, m)
+        for name, ty in run.input_types.items():
+            t = ty[1] if ty and ty[0] == "opt" else ty
+            if not t:
+                continue
+            if "#ret" in name and t[0] == "any":
+                continue
+            if "[" in name or t[0] in ("any", "tuple", "union") or (t[0] in ("list", "dict", "set") and mj.get(name + "#len", mj.get(name + "#size", 1)) != 0):
+                if not (ty[0] == "opt" and mj.get(name + "#none") is True):
+                    fr.xskipped += 1
+                    if os.environ.get("PYVC_DEBUG"):
+                        print("XSKIP input", name, ty)
+                    return
+
+        def pv(v):
+            if isinstance(v, VOpt):
+                if v.forced is not None:
+                    return pv(v.forced)
+                return None if z3.is_true(m.eval(v.isnone, model_completion=True)) else pv(v.get())
+            if isinstance(v, VNone):
+                return None
+            if isinstance(v, VEnum):
+                return {"enum": v.ename, "member": model_val(m, v.t)}
+            if isinstance(v, VReal):
+                return {"real": model_val(m, v.t), "unit": getattr(v, "unit", None)}
+            if isinstance(v, VStr) and getattr(run, "opaque_strings", False) and not z3.is_string_value(E.simp(v.t)):
+                return "?"
+            if isinstance(v, (VInt, VBool, VStr)):
+                return model_val(m, v.t)
+            if isinstance(v, VTuple):
+                items = [pv(x) for x in v.items]
+                return {"tuple": items}
+            return "?"
+        pred = {"exc": exc.exc.cls if exc is not None else None, "arbitrary_exc": bool(exc is not None and exc.exc.arbitrary),
+                "result": pv(result) if exc is None else None, "fields": {}}
+        for n, v in I.tracked:
+            rec = run.rec(v.oid)
+            for f_, fv in rec.fields.items():
+                x = pv(fv)
+                if x != "?":
+                    pred["fields"][f"{n}.{f_}"] = x
+        fr.xchecks.append({"property": fr.prop, "target": c.target, "kind": "xcheck", "is_init": c.is_init, "model": mj,
+                           "types": {k: list(flat_type(v)) for k, v in run.input_types.items()}, "calls": calls_json(run, m),
+                           "path": " ; ".join(run.trace)[:600], "predicted": pred})
 
     def oblige_clause(self, I, ctx, kind, lbl, ex, sframe, extra, fr):
         node = self.parse_clause(ex)
